@@ -71,6 +71,7 @@ __all__ = [
     "sm_from_introspection",
     "sm_diff",
     "sm_element",
+    "text_change_facet",
     "default_detail",
     "sm_violations",
     "sm_type",
@@ -247,8 +248,8 @@ def sm_expected(sm):
 
 def block_ok(desc):
     """Can `desc` be written as a block string whose BlockStringValue() is exactly `desc`?"""
-    if desc == "" or "\r" in desc:
-        return False
+    if desc == "" or any(c in desc for c in "\r\x0b\x0c\x1c\x1d\x1e\x85\u2028\u2029"):
+        return False  # (only LF is used as line terminator inside our block strings: lexer subtleties are C02's)
     lines = desc.split("\n")
     if lines[0].strip(" \t") == "" or lines[-1].strip(" \t") == "":
         return False
@@ -872,6 +873,38 @@ def sm_diff(exp, got, ignore=()):
         _cmp_attrs("directive", "@" + name, e, g, ("description", "locations"), out)
         _cmp_list("directive-arg", "@" + name, e["args"], g["args"], out, darg_cmp)
     return out
+
+
+def text_change_facet(before, after):
+    """How a string differs from what it should be (mechanical; for class keys)."""
+    names = {" ": "sp", "\t": "tab", "\n": "nl"}
+
+    def edge(x):
+        return "+".join(sorted({names.get(c, "other") for c in x})) or "-"
+
+    if after is None:
+        return "lost:empty" if before == "" else ("lost:blank" if before.strip() == "" else "lost")
+    if before is None:
+        return "invented:empty" if after == "" else "invented"
+    if before.strip() == after.strip():
+        core = before.strip()
+        if core == "":
+            return "blank-changed"
+        bl, al = before[: before.index(core)] if core else before, after[: after.index(core)] if core else after
+        bt, at = before[len(bl) + len(core) :], after[len(al) + len(core) :]
+        parts = []
+        if bl != al:
+            parts.append("lead:%s->%s" % (edge(bl), edge(al)))
+        if bt != at:
+            parts.append("trail:%s->%s" % (edge(bt), edge(at)))
+        return "edge-whitespace/" + ",".join(parts)
+    if before.split() == after.split():
+        return "inner-whitespace"
+    try:
+        before.encode("utf-8"), after.encode("utf-8")
+    except UnicodeEncodeError:
+        return "content/lone-surrogates"
+    return "content"
 
 
 def sm_element(sm, path):
